@@ -10,8 +10,9 @@ Content(n, p) == CASE p = 1 -> [i \in 1..n |-> (16 * p + i) % 256]
                    [] p = 2 -> [i \in 1..n |-> 255]
                    [] p = 3 -> [i \in 1..n |-> IF i = 1 THEN 1 ELSE IF i % 2 = 0 THEN 0 ELSE 128 + i]
                    [] p = 4 -> [i \in 1..n |-> (200 + 7 * i) % 256]
+                   [] p = 5 -> [i \in 1..n |-> 0]                     \* all zero: looks like the blank array
 VARIABLES n, p, done
-Init == n \in 0..MaxLen /\ p \in 1..3 /\ done = FALSE
+Init == n \in 0..MaxLen /\ p \in {1, 2, 3, 5} /\ done = FALSE
 VO(op, s, a, b, other, exp) == PrintT(ToJson([op |-> op, bytes |-> s, a |-> J(a), b |-> J(b), other |-> other, exp |-> exp]))
 V(op, s, a, b, exp) == VO(op, s, a, b, <<>>, exp)
 Access(s) ==
@@ -32,8 +33,8 @@ Access(s) ==
                      /\ V("to_incl", s, i, 0, RangeToIncl(s, i))
                      /\ V("set", s, i, 77, SetByte(s, i, 77))
   /\ \A a \in Idxs, b \in Idxs : V("range", s, a, b, RangeOf(s, a, b)) /\ V("incl", s, a, b, RangeIncl(s, a, b))
-  /\ \A m \in 0..MaxLen, q \in 1..3 : VO("eq", s, m, q, Content(m, q), [k |-> "bool", v |-> s = Content(m, q)])
-Cat(s) == \A m \in 0..MaxLen : VO("concat", s, m, 4, Content(m, 4), Bytes(Concat(s, Content(m, 4))))
+  /\ \A m \in 0..MaxLen, q \in {1, 2, 3, 5} : VO("eq", s, m, q, Content(m, q), [k |-> "bool", v |-> s = Content(m, q)])
+Cat(s) == \A m \in 0..MaxLen, q \in {4, 5} : VO("concat", s, m, q, Content(m, q), Bytes(Concat(s, Content(m, q))))
 Next == /\ ~done /\ done' = TRUE /\ UNCHANGED <<n, p>>
         /\ IF Mode = "access" THEN Access(Content(n, p)) ELSE Cat(Content(n, p))
 =============================================================================
